@@ -74,6 +74,8 @@ structure Cfg where
   bb : Option Name
   noRoot : Bool := false
   simul : Bool := false
+  /-- the master defines no valid_bind(): apply_master_ob returns NULL, which MASTER_APPROVED refuses -/
+  noVb : Bool := false
 
 structure Path where
   dir : String
@@ -580,7 +582,10 @@ def execWith (cfg : Cfg) (pol : Policy) (i : Nat) (run : Run) (sub : Sub) (neste
         else
           let v := pol.vb i a t
           let asked : Option (Oid × Oid × Ans) := if t = a then none else some (a, t, v)
-          if t ≠ a ∧ v = .err then (w, [{ seg w a op none [] (some (.err .policy)) true with vb := asked, bindTo := none }])
+          if t ≠ a ∧ cfg.noVb = true then
+            -- no valid_bind in the master: nothing is logged, the NULL result refuses
+            (w, [seg w a op none [] (some (.err .bindDenied)) true])
+          else if t ≠ a ∧ v = .err then (w, [{ seg w a op none [] (some (.err .policy)) true with vb := asked, bindTo := none }])
           else if t ≠ a ∧ v.approved = false then
             (w, [{ seg w a op none [] (some (.err .bindDenied)) true with vb := asked, bindTo := none }])
           else
